@@ -35,7 +35,7 @@ const creds = "Proxy-Authorization: Basic dTpw\r\n" // u:p
 
 var kindNames = []string{"ok", "denied-403", "unauthenticated-407", "dial-error", "origin-reset-mid-body", "connect-client-closes-first",
 	"connect-target-closes-first", "upgrade", "mitm-inner-request", "rejected-upstream-connect", "client-abort-uploading", "client-abort-downloading",
-	"head", "post", "connect-client-aborts-while-dialling", "upgrade-client-aborts-before-101", "client-abort-before-response", "overlapping-same-request-id", "ok-via-connect-to", "upgrade-connection-close", "connect-terminate-tls-fails"}
+	"head", "post", "connect-client-aborts-while-dialling", "upgrade-client-aborts-before-101", "client-abort-before-response", "overlapping-same-request-id", "ok-via-connect-to", "upgrade-connection-close", "connect-terminate-tls-fails", "ok-response-advertises-upgrade", "upgrade-required-426"}
 
 type ledger struct {
 	totals map[string]int // "code,method" -> count; code "*" = any code
@@ -113,6 +113,24 @@ func (s *st) exchange(kind string, c *world.Peer) *world.Peer {
 		expectStatus(c, methods("GET"), 200)
 		s.count(200, "GET")
 		return nil
+	case "ok-response-advertises-upgrade", "upgrade-required-426":
+		// an ordinary (non-101) response that carries Connection: Upgrade and an Upgrade field: a server advertising
+		// h2c, or refusing with 426 Upgrade Required. Nothing is switched; the exchange completes like any other.
+		h := s.hop("ok.test:80", nil)
+		c.Send([]byte("GET http://ok.test/ HTTP/1.1\r\nHost: ok.test\r\n" + creds + "\r\n"))
+		msgs, conns, _ := h.Next()
+		if len(msgs) != 1 {
+			x.Failf("harness/exchange", "%s not forwarded: %q", kind, world.Clip(c.Recv()))
+			return nil
+		}
+		status, line := 200, "200 OK"
+		if kind == "upgrade-required-426" {
+			status, line = 426, "426 Upgrade Required"
+		}
+		h.Conns[conns[0]].Send([]byte("HTTP/1.1 " + line + "\r\nConnection: Upgrade\r\nUpgrade: h2c\r\nContent-Length: 2\r\n\r\nok"))
+		expectStatus(c, methods("GET"), status)
+		s.count(status, "GET")
+		return c
 	case "ok", "head", "post":
 		h := s.hop("ok.test:80", nil)
 		m := map[string]string{"ok": "GET", "head": "HEAD", "post": "POST"}[kind]
